@@ -105,7 +105,12 @@ C03_CLAUSES = {'passes-disagree', 'internal-runtime-error', 'converterror-withou
 
 @check('C03')
 def c03(tier: str) -> int:
-    return _grammar_check('C03', tier, SCALAR_CFGS, C03_CLAUSES, conv.ev_passes)
+    return _multi_grammar('C03', tier, [
+        (SCALAR_CFGS, C03_CLAUSES, conv.ev_passes, {'extra_sp': 1}),
+        (COND_CFGS, C03_CLAUSES, conv.ev_passes, {}),
+        (EXC_CFGS, C03_CLAUSES, conv.ev_passes, {}),
+        (TAGGED_CFGS, C03_CLAUSES, conv.ev_passes, {}),
+    ])
 
 
 @check('C09')
@@ -132,3 +137,147 @@ def c06(tier: str) -> int:
 
 _EVENT_MAKERS.update({'passes': conv.ev_passes, 'snapshot': conv.ev_snapshot, 'roundtrip': conv.ev_roundtrip,
                       'fixpoint': conv.ev_fixpoint})
+
+
+@check('C02')
+def c02(tier: str) -> int:
+    cfgs = {'quick': 'MC_Grammar_matrix_q.cfg', 'thorough': 'MC_Grammar_matrix_t.cfg'}
+    return _grammar_check('C02', tier, cfgs, {'must-reject', 'image', 'must-accept'}, conv.ev_from_data, extra_sp=1)
+
+
+C11_CLAUSES = {'must-accept', 'must-reject', 'image', 'union-serialise-failed', 'union-serialised-by-no-member'}
+
+
+def _ev_union(ident, c):
+    return conv.ev_from_data(ident, c)
+
+
+@check('C11')
+def c11(tier: str) -> int:
+    cfgs = {'quick': 'MC_Grammar_union_q.cfg', 'thorough': 'MC_Grammar_union_t.cfg'}
+    rep = Report('C11', tier)
+    cfg = cfgs[tier]
+    res = engine.model_check('MC_Grammar', cfg, dump=True)
+    rep.add_mc(res, cfg)
+    if res.violated:
+        rep.witness({'clause': 'law-of-sem', 'type_kind': ','.join(res.violated), 'value_kind': ''}, {'tlc_output_tail': res.out[-3000:]})
+        return rep.finish()
+    tvs = pipeline.cases_from_states(engine.dump_states(res))
+    rep.exhaustive = True
+    st1 = pipeline.run_events(rep, pipeline.spread_spellings(tvs, 1), C11_CLAUSES, label='c11', make_event=conv.ev_from_data, reverse=False)
+    utvs = [(T, v, 0) for (T, v) in tvs if T['k'] == 'union']
+    st2 = pipeline.run_events(rep, utvs, C11_CLAUSES, label='c11s', make_event=conv.ev_unionser, reverse=False,
+                              child_event=conv.ev_from_data)
+    rep.extra['replay'] = {'from_data': st1, 'into_data': st2}
+    rep.assumptions += ['small-scope: all ordered pairs of the member pool (thorough: nested/wrapped once more)',
+                        'projection functions harness/vocab.py are trusted']
+    return rep.finish()
+
+
+@check('C13')
+def c13(tier: str) -> int:
+    cfgs = {'quick': 'MC_Grammar_cond_q.cfg', 'thorough': 'MC_Grammar_cond_t.cfg'}
+    return _grammar_check('C13', tier, cfgs, {'must-accept', 'must-reject', 'image', 'foreign-exception'}, conv.ev_from_data, extra_sp=1)
+
+
+_EVENT_MAKERS.update({'unionser': conv.ev_unionser, 'build': conv.ev_build})
+
+
+def _multi_grammar(pid: str, tier: str, plans: list, *, extra=None) -> int:
+    """plans: list of (cfgs-by-tier, owned clauses, event maker, options)."""
+    rep = Report(pid, tier)
+    rep.exhaustive = True
+    stats = {}
+    cache: dict = {}
+    for cfgs, owned, maker, opts in plans:
+        cfg = cfgs[tier]
+        if cfg not in cache:
+            res = engine.model_check('MC_Grammar', cfg, dump=True)
+            rep.add_mc(res, cfg)
+            if res.violated:
+                rep.witness({'clause': 'law-of-sem', 'type_kind': ','.join(res.violated), 'value_kind': ''}, {'tlc_output_tail': res.out[-3000:]})
+                return rep.finish()
+            cache[cfg] = pipeline.cases_from_states(engine.dump_states(res))
+        tvs = cache[cfg]
+        flt = opts.get('filter')
+        if flt:
+            tvs = [tv for tv in tvs if flt(*tv)]
+        st = pipeline.run_events(rep, pipeline.spread_spellings(tvs, opts.get('extra_sp', 0)), owned,
+                                 label=f'{pid.lower()}-{maker.__name__}-{len(stats)}', make_event=maker,
+                                 reverse=False, child_event=opts.get('child_event'))
+        stats[f'{cfg}:{maker.__name__}'] = st
+    if extra:
+        extra(rep, stats)
+    rep.extra['replay'] = stats
+    rep.assumptions += ['small-scope: the universes of the listed configs', 'projection functions harness/vocab.py are trusted']
+    return rep.finish()
+
+
+def _validate_plain(rep, events: list, desc: dict, owned: set, label: str):
+    """Events without (T, v) structure (no descent): validate, report each rejected one."""
+    bad = engine.validate(events, name=label)
+    rep.validated += len(events)
+    evs = {e['id']: e for e in events}
+    for ident, clauses in bad.items():
+        for cl in clauses:
+            if cl in owned:
+                e = evs[ident]
+                rep.witness({'clause': cl, 'type_kind': 'unsupported:' + str(desc.get(ident)), 'value_kind': '',
+                             'outcome': e['out']['k'] + (':' + e['out'].get('c', '') if e['out']['k'] == 'exc' else '')},
+                            {'event': e, 'what': desc.get(ident)})
+    return {'events': len(events), 'rejected': len(bad)}
+
+
+TAGGED_CFGS = {'quick': 'MC_Grammar_tagged_q.cfg', 'thorough': 'MC_Grammar_tagged_t.cfg'}
+EXC_CFGS = {'quick': 'MC_Grammar_exc_q.cfg', 'thorough': 'MC_Grammar_exc_t.cfg'}
+COND_CFGS = {'quick': 'MC_Grammar_cond_q.cfg', 'thorough': 'MC_Grammar_cond_t.cfg'}
+C12_CLAUSES = {'must-accept', 'must-reject', 'image', 'foreign-exception', 'tag-not-named', 'build-must-fail',
+               'build-exception-class'} | C05_CLAUSES
+
+
+@check('C12')
+def c12(tier: str) -> int:
+    def extra(rep, stats):
+        evs, desc = conv.build_events_unsupported(10 ** 7, only_dup=True)
+        stats['duplicate-tags'] = _validate_plain(rep, evs, desc, C12_CLAUSES, 'c12-dup')
+    return _multi_grammar('C12', tier, [
+        (TAGGED_CFGS, C12_CLAUSES, conv.ev_from_data, {'extra_sp': 0}),
+        (TAGGED_CFGS, C12_CLAUSES, conv.ev_tagmsg, {'filter': lambda T, v: T['k'] == 'tagged', 'child_event': conv.ev_from_data}),
+        (TAGGED_CFGS, C12_CLAUSES, conv.ev_roundtrip, {}),
+    ], extra=extra)
+
+
+C04_CLAUSES = {'foreign-exception', 'build-fails-documented', 'build-exception-class', 'build-must-fail'}
+
+
+def _ev_build_case(ident, c):
+    return conv.ev_build(ident, c, True)
+
+
+@check('C04')
+def c04(tier: str) -> int:
+    def extra(rep, stats):
+        evs, desc = conv.build_events_unsupported(10 ** 7)
+        stats['unsupported-catalogue'] = _validate_plain(rep, evs, desc, C04_CLAUSES, 'c04-unsup')
+    return _multi_grammar('C04', tier, [
+        (EXC_CFGS, C04_CLAUSES, conv.ev_from_data, {'extra_sp': 0}),
+        (EXC_CFGS, C04_CLAUSES, _ev_build_case, {'filter': _first_of_type()}),
+        (SCALAR_CFGS, C04_CLAUSES, conv.ev_from_data, {}),
+        (TAGGED_CFGS, C04_CLAUSES, conv.ev_from_data, {}),
+        (COND_CFGS, C04_CLAUSES, conv.ev_from_data, {}),
+    ], extra=extra)
+
+
+def _first_of_type():
+    seen = set()
+
+    def f(T, v):
+        k = vocab.canon(T)
+        if k in seen:
+            return False
+        seen.add(k)
+        return True
+    return f
+
+
+_EVENT_MAKERS.update({'tagmsg': conv.ev_tagmsg})
